@@ -204,6 +204,20 @@ def reacquireViolations (facts : List MethodFacts) : List Violation :=
 def lockOrder (facts : List MethodFacts) : List (Res × Res) :=
   (programs facts).flatMap (orderFrom [])
 
+/-- Acquisitions of a mutex that this invocation has acquired (and released) before: the operation is then
+    made of two critical sections of that mutex, and other operations on the maps it guards can run between
+    them — a check made in the first section is stale in the second (lost updates, double acceptance). -/
+def resectionViolFrom (name : String) : Nat → List Res → List Op → List Violation
+  | _, _, [] => []
+  | i, seen, .acq l mode :: r =>
+    (if seen.contains l then [⟨name, i, .acq l mode⟩] else []) ++ resectionViolFrom name (i + 1) (l :: seen) r
+  | i, seen, _ :: r => resectionViolFrom name (i + 1) seen r
+
+/-- "Every individual store operation takes effect atomically", the structural half: no method takes the
+    same mutex twice in one invocation (after inlining). -/
+def sectionViolations (facts : List MethodFacts) : List Violation :=
+  perMethod facts (fun n p => resectionViolFrom n 0 [] p)
+
 /-- Methods whose linear event list is not a faithful reading of all their paths. -/
 def shapeViolations (facts : List MethodFacts) : List (String × Nat × Nat) :=
   (facts.filter (fun m => m.nestedLockOps != 0 || m.closures != 0)).map
